@@ -455,7 +455,7 @@ func runAdmit(id string, parts []string) string {
 				continue
 			}
 			var a netip.Addr
-			if kind != "hx" && as != "none" {
+			if kind != "hx" && !strings.HasPrefix(as, "none") {
 				var err error
 				a, err = c15ParseAddr(as)
 				if err != nil {
